@@ -129,6 +129,11 @@ PROPS = {
             {"id": "history-queries", "func": "VerifHistory", "pkg": PEG, "pkgname": "pegnet", "load": ["./node/pegnet"],
              "params": {"quick": {}, "thorough": {}}, "must_cover": ["some-actions", "no-actions"], "max_witness_replays": 8},
             APIREADS,
+            # more recorded actions than one page holds (QueryLimit = 50): walked page after page, and read at every offset
+            {"id": "history-pages-walk", "func": "VerifHistoryPages", "pkg": PEG, "pkgname": "pegnet", "load": ["./node/pegnet"],
+             "params": {"quick": {"walk": 1, "rows": 53}, "thorough": {"walk": 1, "rows": 103}}, "must_cover": ["walked"], "max_witness_replays": 2},
+            {"id": "history-pages-offsets", "func": "VerifHistoryPages", "pkg": PEG, "pkgname": "pegnet", "load": ["./node/pegnet"],
+             "params": {"quick": {"walk": 0, "rows": 53}, "thorough": {"walk": 0, "rows": 103}}, "must_cover": ["page", "offset-above-count"], "max_witness_replays": 3},
         ] + TXBLOCK_HARNESSES[:1] + HOLDING_HARNESSES[:1] + [PEGBATCH] + BATCH_HARNESSES[:1] + [BATCH_HARNESSES[3]] + [
             {"id": "rewards", "func": "VerifRewards", "pkg": NODE, "pkgname": "node", "load": ["./node"],
              "params": {"quick": {"maxwinners": 2}, "thorough": {"maxwinners": 3}}, "must_cover": ["winners"], "max_witness_replays": 2},
@@ -138,9 +143,9 @@ PROPS = {
              "params": {"quick": {"both": 2, "extras": 1, "assets": 1}, "thorough": {"both": 2, "extras": 1, "assets": 1}}, "must_cover": ["paid"], "max_witness_replays": 2},
         ],
         "wall": {"quick": 400, "thorough": 3000},
-        "bounds": {"quick": "history of 2 batches (transfer with 2 outputs + conversion; transfer), an FCT burn and a coinbase written by the real insert functions at symbolic heights; one query by hash / txid / address / height with every combination of order, the four type filters and 4 asset filters (first page); plus the status/amount assertions of the block-application harnesses (transaction block, holding pass, batch, rewards, developer payout, staking payout)",
+        "bounds": {"quick": "history of 2 batches (transfer with 2 outputs + conversion; transfer), an FCT burn and a coinbase written by the real insert functions at symbolic heights; one query by hash / txid / address / height with every combination of order, the four type filters and 4 asset filters (first page); paging over more rows than a page holds (see assumptions); plus the status/amount assertions of the block-application harnesses (transaction block, holding pass, batch, rewards, developer payout, staking payout)",
                    "thorough": "same"},
-        "assumptions": ["NOT APPLICABLE sub-claim: paging beyond the first page (page size is the constant 50: a second page needs > 50 joined rows)",
+        "assumptions": ["paging: 53 (q) / 103 (t) one-transaction batches at one height read back by height and by address, ascending and descending - page after page the way a client follows nextoffset, and at every offset 0..N+1; filters are combined with paging only on the first page",
                         "json round trip of the outputs column stubbed; 'replaying history reproduces balances' is asserted per unit (recorded amounts == balance deltas of the unit), scheduled adjustments exempt as the property says"],
     },
     "C18": {
